@@ -728,6 +728,14 @@ func RuleG1In(r *Report, p *Program, only string) {
 				continue
 			}
 			ts := v.Type().String()
+			if isSyncMapType(v.Type()) {
+				if sp := p.SSAPkgs[pk.PkgPath]; sp != nil {
+					if g, ok := sp.Members[name].(*ssa.Global); ok && p.memoTable(g).ok {
+						r.OK("G1", relPkg(pk.PkgPath)+"."+name, p.Pos(v.Pos()), "memo table: only values that are a pure function of their key are stored (a cache, not state)", true)
+						continue
+					}
+				}
+			}
 			if strings.HasPrefix(ts, "sync.") || strings.HasPrefix(ts, "sync/atomic.") || strings.HasPrefix(ts, "*sync.") {
 				isMutex := ts == "sync.Mutex" || ts == "sync.RWMutex"
 				r.Check(isMutex && relPkg(pk.PkgPath) == "uhppote", "G1", relPkg(pk.PkgPath)+"."+name, p.Pos(v.Pos()), "the process-wide fixed-port mutex",
